@@ -178,7 +178,8 @@ def zeros( shape, dtype=float, order = 'C'):
     if numpy.isscalar(shape):
         shape = (shape,)
 
-    if isinstance(dtype,type):
+    if isinstance(dtype, (type, str, numpy.dtype)):
+        # a dtype in any spelling numpy accepts: float, 'float32', numpy.dtype('complex64')
         return numpy.zeros(shape, dtype=dtype,order=order)
 
     elif isinstance(dtype, numpy.ndarray):
@@ -208,7 +209,8 @@ def ones( shape, dtype=float, order = 'C'):
     if numpy.isscalar(shape):
         shape = (shape,)
 
-    if isinstance(dtype,type):
+    if isinstance(dtype, (type, str, numpy.dtype)):
+        # a dtype in any spelling numpy accepts: float, 'float32', numpy.dtype('complex64')
         return numpy.ones(shape, dtype=dtype,order=order)
 
 
